@@ -52,6 +52,7 @@ type c05World struct {
 	bootstrapOf  map[string]string          // otp value -> user (current, unused)
 	lastAssert   map[string]map[string]string
 	trace        []string
+	primaryLabel string
 }
 
 type c05Challenge struct {
@@ -119,6 +120,44 @@ func (w *c05World) check(step, presented, emitted string, proven int, loginUser 
 		if gained&b != 0 && proven&b != 0 {
 			w.rep.Count("legit_gain_"+name, 1)
 		}
+	}
+}
+
+// checkMulti: several auth cookies were attached to one request.  The emitted
+// cookie must continue one of them (same subject) and may only gain factors
+// legitimately proven for THAT subject in this step (provenFor[subject]).
+func (w *c05World) checkMulti(step string, presented []string, emitted string, provenFor map[string]int) {
+	if emitted == "" {
+		return
+	}
+	nsub, nbits, ok := w.info(emitted)
+	if !ok {
+		return
+	}
+	w.rep.Count("cookies_checked", 1)
+	c := map[string]interface{}{"step": step, "emitted_subject": nsub, "emitted_bits": fmt.Sprintf("%#x", nbits)}
+	var subs []string
+	matched := false
+	for _, p := range presented {
+		osub, obits, ok := w.info(p)
+		if !ok {
+			continue
+		}
+		subs = append(subs, osub)
+		if osub != nsub {
+			continue
+		}
+		matched = true
+		if extra := (nbits &^ obits) &^ provenFor[osub]; extra != 0 {
+			c["presented_subjects"] = subs
+			w.rep.Violate(fmt.Sprintf("C05/unearned-factor/%s/bits=%#x", step, extra),
+				fmt.Sprintf("with several cookies attached, the session of %q gained factor bits %#x that were proven for another user", nsub, extra), c)
+			return
+		}
+	}
+	if !matched {
+		c["presented_subjects"] = subs
+		w.rep.Violate("C05/subject-changed/"+step, "the emitted cookie continues none of the presented sessions", c)
 	}
 }
 
@@ -448,6 +487,53 @@ func (w *c05World) bootstrap(s *c05Session, otp string, label string) bool {
 	return honoured
 }
 
+// failWrites makes every write to the primary store fail (reads keep working).
+func (w *c05World) failWrites(on bool) {
+	if w.primaryLabel == "" {
+		return
+	}
+	if !on {
+		verifSQL.SetHook(w.primaryLabel, nil)
+		return
+	}
+	verifSQL.SetHook(w.primaryLabel, func(op verifSQLOp) error {
+		if op.Kind == "begin" || op.Kind == "commit" || op.IsWrite() {
+			return errVerifInjected
+		}
+		return nil
+	})
+}
+
+// bootstrapNoSpend presents the OTP while the store is failing: whether it is
+// honoured is observed; the ground truth keeps the OTP as unspent only if it was not.
+func (w *c05World) bootstrapNoSpend(s *c05Session, otp, label string) bool {
+	presented := s.Auth
+	sub, _, _ := w.info(s.Auth)
+	r := w.do(verifReq{Method: "POST", Path: "/api/v0/bootstrapOtpAuth", Form: url.Values{"OTP": {otp}}, Cookies: w.cookies(s, nil)})
+	em := ""
+	if c := r.Cookie("auth_cookie"); c != nil {
+		em = c.Value
+	}
+	honoured := false
+	if em != "" {
+		if _, nb, ok := w.info(em); ok && nb&verifBit["BootstrapOTP"] != 0 {
+			honoured = true
+		}
+	}
+	w.log("bootstrap(%s,%s)=%d honoured=%v", sub, label, r.Code, honoured)
+	proven := 0
+	w.mu.Lock()
+	if w.bootstrapOf[otp] == sub {
+		proven = verifBit["BootstrapOTP"]
+	}
+	if honoured {
+		delete(w.bootstrapOf, otp)
+	}
+	w.mu.Unlock()
+	w.check("bootstrap:"+label, presented, em, proven, "")
+	return honoured
+}
+
 func (w *c05World) showToken(s *c05Session) string {
 	presented := s.Auth
 	sub, _, ok := w.info(s.Auth)
@@ -513,7 +599,11 @@ func c05NewWorld(t *testing.T, rep *verifReport) *c05World {
 	if err != nil {
 		t.Fatal(err)
 	}
-	return &c05World{env: env, rep: rep, vip: vip, trust: trust, acceptedTOTP: map[string]map[string]bool{}, pushFor: map[string]string{},
+	pl, _, err := env.HookDBs()
+	if err != nil {
+		t.Fatal(err)
+	}
+	return &c05World{primaryLabel: pl, env: env, rep: rep, vip: vip, trust: trust, acceptedTOTP: map[string]map[string]bool{}, pushFor: map[string]string{},
 		challenge: map[string]*c05Challenge{}, cliOwner: map[string]string{}, bootstrapOf: map[string]string{}, lastAssert: map[string]map[string]string{}}
 }
 
@@ -718,6 +808,46 @@ func TestVerifC05(t *testing.T) {
 		w.sendAuthDoc(sa, exp, false, "expired")
 		w.sendAuthDoc(sa, tb, true, "other-users-token-2")
 	})
+	// S7: two auth cookies in one request (the victim's and the adversary's own), the adversary proves its own factor
+	scenario("two-cookies", func() {
+		a, b := w.newUser("s7a", true), w.newUser("s7b", true)
+		sa, sb := &c05Session{}, &c05Session{}
+		w.login(sa, a, true) // victim's password-level session, known to the adversary
+		w.login(sb, b, true)
+		for _, order := range [][]*c05Session{{sa, sb}, {sb, sa}} {
+			list := [][2]string{{"auth_cookie", order[0].Auth}, {"auth_cookie", order[1].Auth}}
+			presented := []string{order[0].Auth, order[1].Auth}
+			// VIP OTP of b
+			r := w.do(verifReq{Method: "POST", Path: "/api/v0/vipAuth", Form: url.Values{"OTP": {fmt.Sprintf("%06d", b.VIPOTP)}}, CookieList: list})
+			em := ""
+			if c := r.Cookie("auth_cookie"); c != nil {
+				em = c.Value
+			}
+			rep.Eval(fmt.Sprintf("two-cookies|vip-otp|%d", r.Code))
+			w.checkMulti("two-cookies:vip-otp", presented, em, map[string]int{b.Name: verifBit["SymantecVIP"]})
+			// TOTP of b
+			time.Sleep(2100 * time.Millisecond)
+			r = w.do(verifReq{Method: "POST", Path: "/api/v0/TOTPAuth", Form: url.Values{"OTP": {verifTOTPCode(b.Secret, time.Now())}}, CookieList: list})
+			em = ""
+			if c := r.Cookie("auth_cookie"); c != nil {
+				em = c.Value
+			}
+			rep.Eval(fmt.Sprintf("two-cookies|totp|%d", r.Code))
+			w.checkMulti("two-cookies:totp", presented, em, map[string]int{b.Name: verifBit["TOTP"]})
+			// hardware token of b
+			if req, _ := verifU2FBegin(w.env, sb.Auth); req != nil {
+				body, _ := jsonMarshal(b.Token.SignResponse(req.AppID, req.Challenge))
+				r = w.do(verifReq{Method: "POST", Path: "/u2f/SignResponse", RawBody: body, RawCT: "application/json", CookieList: list})
+				em = ""
+				if c := r.Cookie("auth_cookie"); c != nil {
+					em = c.Value
+				}
+				rep.Eval(fmt.Sprintf("two-cookies|u2f|%d", r.Code))
+				w.checkMulti("two-cookies:u2f", presented, em, map[string]int{b.Name: verifBit["U2F"]})
+			}
+			rep.Count("two_cookie_requests", 3)
+		}
+	})
 	// ---- seeded random walks ---------------------------------------------------
 	nPairs, steps := 4, 500
 	if verifThorough() {
@@ -738,6 +868,25 @@ func TestVerifC05(t *testing.T) {
 		})
 	}
 	wg.Wait()
+	// S8: the store fails while a one-time value is being consumed: it must not be honoured, or must be spent
+	// (runs alone: the fault affects the whole store)
+	func() {
+		c := w.newUser("s8c", false)
+		w.issueBootstrap("root1", c, "")
+		s1, s2 := &c05Session{}, &c05Session{}
+		w.login(s1, c, true)
+		w.login(s2, c, true)
+		w.failWrites(true)
+		h1 := w.bootstrapNoSpend(s1, c.Bootstrap, "own-while-store-fails")
+		w.failWrites(false)
+		h2 := w.bootstrap(s2, c.Bootstrap, "own-after-store-recovered")
+		rep.Eval(fmt.Sprintf("storage-fault|bootstrap|first=%v|second=%v", h1, h2))
+		if h1 && h2 {
+			rep.Violate("C05/one-time-value-honoured-twice/bootstrap-otp/storage-fault", "a bootstrap OTP was honoured while its consumption could not be stored and honoured again afterwards", nil)
+		}
+		rep.Count("storage_fault_scenarios", 1)
+		rep.Count("scenarios_completed", 1)
+	}()
 	for _, f := range []string{"password", "TOTP", "SymantecVIP", "U2F", "BootstrapOTP", "WebauthForCLI"} {
 		rep.Floor("legit_gain_"+f, 1)
 	}
@@ -745,7 +894,9 @@ func TestVerifC05(t *testing.T) {
 	rep.Floor("webauthn_honoured", 1)
 	rep.Floor("expired_challenge_checked", 1)
 	rep.Floor("totp_replay_next_step_checked", 1)
-	rep.Floor("scenarios_completed", 6+nPairs)
+	rep.Floor("scenarios_completed", 8+nPairs)
+	rep.Floor("two_cookie_requests", 6)
+	rep.Floor("storage_fault_scenarios", 1)
 	rep.Assume("Okta OTP/push level upgrades are exercised in C17's Okta deployment for redirects only; the push service, directory-less password backend and hardware tokens are local fakes / soft tokens")
 }
 
